@@ -1,5 +1,7 @@
 from __future__ import print_function, division
 
+import copy
+
 try:
     import cPickle as pickle
 except ImportError:
@@ -94,7 +96,12 @@ class FitInfoFile(object):
                     yield info
         else:
             for info in self._fits:
-                yield info
+                # Yield a shallow copy, so that the selection each consumer
+                # applies in place (info.keep) does not truncate the results
+                # that were passed in
+                info_copy = copy.copy(info)
+                info_copy.meta = info.meta
+                yield info_copy
 
 
 class FitInfoMeta(object):
